@@ -591,8 +591,9 @@ def run_query(ctx, spec, op, X, pool, vals, kk):
 # ---------------------------------------------------------------------------
 def step_strategy():
     return st.fixed_dictionaries(dict(
-        op=st.integers(0, len(OPS) - 1), i=st.integers(0, 7), j=st.integers(0, 7),
-        k=st.integers(0, 11),
+        # sampled_from (uniform), not integers (biased towards 0): these are selectors
+        op=st.sampled_from(list(range(len(OPS)))), i=st.sampled_from(list(range(8))),
+        j=st.sampled_from(list(range(8))), k=st.sampled_from(list(range(12))),
         vals=st.lists(fl(-1.0, 1.0), min_size=9, max_size=9)))
 
 
